@@ -8,9 +8,11 @@
 use std::{io, ops, process};
 use std::net::IpAddr;
 use std::sync::Arc;
-use std::sync::atomic::{
-    AtomicU32, AtomicI64, AtomicU64, AtomicUsize, Ordering,
-};
+use std::sync::atomic::{AtomicU32, AtomicI64, AtomicU64, Ordering};
+#[cfg(not(routinator_verif))]
+use std::sync::atomic::AtomicUsize;
+#[cfg(routinator_verif)]
+use crate::verif::atomic::AtomicUsize;
 use std::sync::atomic::Ordering::Relaxed;
 use std::time::{Duration, SystemTimeError};
 use arc_swap::ArcSwap;
